@@ -238,7 +238,13 @@ def observe(prj, fi: FuncInfo, kind: str, v: int, subj_is_length: bool):
         return tuple((i, "Add", SUBJ if (subj_is_length and x == v) else str(x)) for i, x in enumerate(res) if x != 0)
     everything = [run.result] + [a for _, aa, kw in run.effects for a in list(aa) + list(kw.values())]
     if kind == "colour":
-        return tuple(sorted({c for c in deep_strs(everything) if c in COLOURS}))
+        # the colour the function hands back; only when its result carries none (it prints instead): the colours of what it printed.
+        # Objects built while a module-level table was evaluated (a precomputed tuple of styles) are not outcomes of this call.
+        own = tuple(sorted({c for c in deep_strs([run.result]) if c in COLOURS}))
+        if own:
+            return own
+        used = [a for name, aa, kw in run.effects if not name.split(".")[-1].split("(")[0].endswith("Style") for a in list(aa) + list(kw.values())]
+        return tuple(sorted({c for c in deep_strs(used) if c in COLOURS}))
     if kind == "retsym":
         return tuple(sorted({EMOJI[e] for st in deep_strs(run.result) for e in EMOJI if e in st}))
     if kind == "sym":
@@ -323,9 +329,9 @@ def check_site(ctx, prj, fi: FuncInfo, facts: LengthFacts, spec: dict, consts=No
             ctx.discharged += 1
     regs, _ = regions(fi, pred, consts, label=lab)
     desc = fmt_regions(regs)
-    if bad and evaluated["fallback"] and not evaluated["n"] and all(r[2] in ((), None) for r in regs):
-        # the site could not be evaluated and the syntactic reading finds no category-dependent construct in it at all:
-        # nothing was recognised, so nothing is reported
+    if bad and evaluated["fallback"] and not evaluated["n"] and len({repr(r[2]) for r in regs}) == 1:
+        # the site could not be evaluated and the syntactic reading sees the same constructs for every length (no decision is
+        # visible to it: a table, an enum, a helper): nothing was recognised, so nothing is reported
         raise AnalysisError(f"C02-R1: {fi.disp}: the decision of this site could be neither evaluated nor read off its syntax")
     if bad:
         v, got, want = bad
